@@ -350,15 +350,36 @@ def _model_points(hyps, pool):
         full = tuple(c.id for c in pc)
         pc = FREE.get(full, pc)
         # preconditions stated in the middle of a path are hypotheses like the global ones (not implied by anything)
-        rel = smt.relevant([h for h in hyps if h.id in aset] + LOCAL.get(full, []), pc) + pc
-        st, model, _ = smt.check(rel, 2000, want_model=True)
-        if st == 'sat' and model and all(v is not None for v in model.values()):
-            base = {k: v for k, v in model.items() if core.CTX.atoms[k].get('defn') is None}
-            pt = Point(f'pathmodel{len(pool)}', base)
+        side = [h for h in hyps if h.id in aset] + LOCAL.get(full, [])
+        goal, base = list(pc), {}
+        # counter-example guided: solve for the open decisions (and what shares atoms with them), complete the point at
+        # random, and if a hypothesis is false there, add it to the goal and solve again
+        for attempt in range(5):
+            if goal:
+                gids = set(g.id for g in goal)
+                rel = [h for h in smt.relevant(side, goal) if h.id not in gids] + goal
+                st, model, _ = smt.check(rel, 2000, want_model=True)
+                if st != 'sat' or not model or any(v is None for v in model.values()):
+                    break
+                base = {k: v for k, v in model.items() if core.CTX.atoms[k].get('defn') is None}
+            pt = Point(f'pathmodel{len(pool)}.{attempt}', base)
             # equalities of the path condition hold exactly in the rational model; in floats they
             # may come out "too close to call" (None), which is accepted here
-            if all(pt.eval(c) is not False for c in hyps):
+            failing = []
+            for c in hyps:
+                try:
+                    if pt.eval(c) is False:
+                        failing.append(c)
+                except (Reject, ZeroDivisionError, OverflowError):
+                    failing.append(c)
+            if not failing:
                 out = [pt]
+                break
+            known = set(g.id for g in goal)
+            fresh = [c for c in failing if c.id not in known]
+            if not fresh:
+                break
+            goal = goal + fresh
     except Exception:
         out = []
     _MODEL_CACHE[key] = out
